@@ -42,7 +42,7 @@ PROPS = {
     "C07": P(["inval"], 107,
              rule="GETs in several spellings and variants interleaved with unsafe requests of registered, WebDAV and unknown method tokens, statuses 1xx-5xx, relative / absolute / same- / cross-origin Location and Content-Location; 1-2 clients. A third of the runs inject transient read errors of the store (err / operation timeout on Get) while requests are handled; unsafe exchanges whose Delete was refused are not judged; storing or freshening that overlaps the unsafe request is not judged.",
              require_probes=["C07/served-after-invalidation"], technique="deterministic simulation: seeded histories, happens-before oracle on store writes vs unsafe exchanges"),
-    "C08": P(["writeback", "swrvary", "swr"], 108,
+    "C08": P(["writeback", "swrvary", "swr", "varyflip"], 108,
              rule="Short lifetimes relative to think times so that entries are validated repeatedly; 304s carrying header updates, full replies with changed validators, 2-4 variants per URI, stale-while-revalidate so refreshes run in the detached goroutine at scheduler-chosen instants.",
              require_probes=["C08/"], technique="deterministic simulation: virtual clock, scheduler-controlled background goroutine, quiet-window model of the latest origin response"),
     "C09": P(["hits"], 109,
@@ -75,7 +75,7 @@ PROPS = {
     "C19": P(["growth"], 119, runs=(700, 30000), budget=(40, 900),
              rule="A finite alphabet of <=4 URIs x <=4 header combinations (optionally an unsafe method) repeated for 8N requests (N=40 quick, 100-500 thorough) against origins using Vary (incl. '*' and changing sets), validation, stale-while-revalidate and 1-60 s lifetimes; store footprint recorded at N, 2N, 4N, 8N; one third of the runs end with an unsafe request to every URI.",
              require_probes=["C19/keys-unbounded", "C19/invalidation-leak"], technique="deterministic simulation: long histories on a virtual clock, footprint trend oracle at N/2N/4N/8N"),
-    "C20": P(["swr"], 120,
+    "C20": P(["swr", "swr", "swrreuse"], 120,
              rule="SWR-eligible stale entries with and without validators; background origin latency 0..timeout-1ns, timeout, timeout+1ns, 10x timeout, never; outcomes 304 / 200 / 5xx / error / reset mid-body; WithSWRTimeout unset, 0, negative, 1ns, 1s, 5s, 60s; caller context cancelled before / after return.",
              require_probes=["swr-served", "swr-timeout-fired"], technique="deterministic simulation: virtual clock + quiescence detection; causal foreground-latency, exactly-once and goroutine-census oracles"),
 }
